@@ -29,7 +29,8 @@ FEATURES = {
     "h": ["none", "h", "hd", "dh", "ph", "s", "hg", "two", "restricted", "hp", "dph", "excl", "h3", "three"],
     # "tight": c <= w - 0.2629, so the lowest wealth states have NO feasible choice (supported only for T=1,
     # where their value must be exactly -inf)
-    "cons": ["c", "none", "disc", "period", "param", "aux", "tight"],
+    # "multi": THREE constraints (on c/w, on e/s and on c/d)
+    "cons": ["c", "none", "disc", "period", "param", "aux", "tight", "multi"],
     # make_source also supports "reduce" (a legal scalar function that is NOT broadcast-safe: it reduces
     # over a stacked array); it is enumerated explicitly by C03/C13 only, because simulate evaluates the
     # transition functions on whole agent vectors (known finding K5)
@@ -66,13 +67,13 @@ def normalise(fv):
     fv = dict(fv)
     if fv["h"] == "hg" or fv["filt"] == "states" or fv["h"] in ("two", "three"):
         fv["g"] = 1
-    if fv["cons"] == "disc" or fv["filt"] == "se":
+    if fv["cons"] in ("disc", "multi") or fv["filt"] == "se":
         fv["e"] = 1
     if fv["filt"] == "shrink" and fv["T"] == 4:
         return None
     if fv["filt"] in ("grow", "shrink") and fv["h"] == "s":
         pass
-    if fv["cc"] == "none" and fv["cons"] in ("period", "param", "aux", "tight"):
+    if fv["cc"] == "none" and fv["cons"] in ("period", "param", "aux", "tight", "multi"):
         return None
     if fv["h"] == "excl" and (fv["trans"] != "default" or fv["filt"] in ("shrink", "states", "grow", "mix")):
         return None
@@ -132,8 +133,10 @@ def make_source(fv):
     # ---------------- constraints (expressions reused as poison in utility)
     cons_exprs = []  # (name, args, expr)
     if has_c:
-        if fv["cons"] in ("c", "disc"):
+        if fv["cons"] in ("c", "disc", "multi"):
             cons_exprs.append(("c_constraint", ["c", "w"], "c <= w + 0.2371" if not wdisc else "c <= w + 0.7371"))
+            if fv["cons"] == "multi":
+                cons_exprs.append(("cd_constraint", ["c", "d"], "c <= 2.7371 - 0.6 * d"))
         elif fv["cons"] == "lower":
             # (enumerated explicitly by C02 only, with T=1) lower bound makes the FIRST grid point infeasible and
             # utility is -inf at feasible points c <= 1: agents with little wealth have only -inf feasible choices
@@ -155,7 +158,7 @@ def make_source(fv):
     else:
         if fv["cons"] in ("c", "disc"):
             cons_exprs.append(("d_constraint", ["d", "w"], "d <= w - 0.7371" if not wdisc else "d <= w + 0.5"))
-    if fv["cons"] == "disc":
+    if fv["cons"] in ("disc", "multi"):
         cons_exprs.append(("e_constraint", ["e", "s"], "e <= s + 1"))
     for name, args, expr in cons_exprs:
         L.append(f"def {name}({', '.join(args)}):\n    return {expr}")
